@@ -335,7 +335,7 @@ PARTS = [
          exhaustive_note="every tree over shapes [3], [2,2], [1,2,2] (thorough: also [2,1,2], [2,2,2], [3,2]) with each "
                          "leaf absent / explicit default / 5, x every C/U assignment per rank, place-value bit widths, "
                          "all partial points"),
-    Part("random", cases(), check, n_quick=2500, n_thorough=12000),
+    Part("random", cases(), check, n_quick=3000, n_thorough=12000),
 ]
 
 
